@@ -88,7 +88,7 @@ func (r *refRun) act(a nAct, catchVar *obj) comp {
 		return comp{kind: cBrk}
 	case "cnt":
 		return comp{kind: cCnt}
-	case "rt0", "rtm", "rtp":
+	case "rt0", "rtm", "rth", "rtp":
 		r.cov["rt:"+a.K] = true
 		return comp{kind: cThrow, o: r.newObj("", "")}
 	case "try":
@@ -232,7 +232,7 @@ func (e expectation) String() string { return strings.Join(e.Toks, ";") }
 // error meets a catch (Exception) and the two readings differ).
 func reference(p Prog) []expectation {
 	var out []expectation
-	hasRT := p.Root.uses("rt0") || p.Root.uses("rtm") || p.Root.uses("rtp")
+	hasRT := p.Root.uses("rt0") || p.Root.uses("rtm") || p.Root.uses("rth") || p.Root.uses("rtp")
 	for _, flag := range []bool{true, false} {
 		r := &refRun{rtIsException: flag, cov: map[string]bool{}}
 		r.program(p)
@@ -252,7 +252,9 @@ func reference(p Prog) []expectation {
 // hand; they are the textbook cases of the statement).
 func refSelfTest() error {
 	th := func(c string) Act { return decode(c) }
-	mk := func(body Act, cs []Catch, fin *Act) Act { return Act{K: "try", Try: &Try{Body: body, Catches: cs, Fin: fin}} }
+	mk := func(body Act, cs []Catch, fin *Act) Act {
+		return Act{K: "try", Try: &Try{Body: body, Catches: cs, Fin: fin}}
+	}
 	m, ret := Act{K: "m"}, Act{K: "ret"}
 	tE2 := th("tE2")
 	cases := []struct {
